@@ -92,6 +92,8 @@ def _create_h2(data, meta) -> Histogram2D:
 
     # TODO: Are the shapes in correct order?
     frequencies = data[:, 1].reshape([b + 2 for b in shape])
+    # The outer rows and columns are the underflow / overflow cells
+    missed = frequencies.sum() - frequencies[1:-1, 1:-1].sum()
     frequencies = frequencies[1:-1, 1:-1]
 
     errors2 = data[:, 2].reshape([b + 2 for b in shape])
@@ -102,6 +104,7 @@ def _create_h2(data, meta) -> Histogram2D:
         name=_get(meta, "title"),
         frequencies=frequencies,
         errors2=errors2,
+        missed=missed,
     )
 
     return hist
